@@ -666,6 +666,8 @@ func (c *Ctx) applyTableOverrides(from int) {
 			table = c.tableCovered["table:run"]
 		case o.Key == "R5:M10":
 			table = c.tableCovered["table:opset"]
+		case strings.HasPrefix(o.Key, "R6:T6:"), strings.HasPrefix(o.Key, "R6:T7:"):
+			table = c.tableCovered["table:gate"]
 		}
 		if table == "" {
 			continue
